@@ -5,6 +5,7 @@ from typing import Any, Dict, List
 
 from .. import compare as cmp
 from ..core import Outcome, Prop
+from .component import COMPONENT, compare_c03 as _component
 from . import slices
 from .c11 import SERIES_DROP
 
@@ -26,6 +27,8 @@ def against(vec: Dict[str, Any], exp: Dict[str, Any], obs: Dict[str, Any]) -> Li
 
 
 def compare(vec: Dict[str, Any], obs: Dict[str, Any]) -> Outcome:
+    if vec.get("kind") == "component":
+        return _component(vec, obs)
     oc = Outcome()
     mism = against(vec, vec["expect"], obs)
     # post-conditions observed on the implementation itself
@@ -61,7 +64,7 @@ def compare(vec: Dict[str, Any], obs: Dict[str, Any]) -> Outcome:
 PROP = Prop(
     id="C03",
     title="Whatever validate returns conforms to the schema (parse postcondition)",
-    slices=[slices.SERIES_PARSE, slices.FRAME_PARSE, SERIES_DROP],
+    slices=[slices.SERIES_PARSE, slices.FRAME_PARSE, SERIES_DROP, COMPONENT],
     compare=compare,
     rule=("TLC explores the parse pipeline (default filling, coercion, index coercion; frames: add_missing_columns, "
           "strict='filter') and proves ParsePostcondition and ParseFixpoint on the specification; every run is replayed, "
